@@ -99,6 +99,22 @@ def scenario(exe, shim, root, seed, stats):
                 if rng.chance(1, 4): os.unlink(a.path(d, rel))
         if rng.chance(1, 2):
             a.cmd('scrub', '-p', 'full')      # leaves bad marks for fix -e
+    if rng.chance(1, 2):
+        # a recorded EMPTY file replaced by a symbolic link: to a healthy non-empty file of another disk, or to a path that
+        # does not exist outside the data disks; whatever fix does about the path, it must not write THROUGH the link
+        dz = fx.decode(a)
+        empties = [(dz.maps[f['mapping']][0].decode(), os.fsdecode(f['sub'])) for f in dz.files if f['size'] == 0] if dz.ok else []
+        empties = [(d, rel) for d, rel in empties if os.path.isfile(a.path(d, rel)) and not os.path.islink(a.path(d, rel))]
+        targets = [(d, rel) for d, rel in s.existing_files() if os.path.getsize(a.path(d, rel)) > 0]
+        for d, rel in empties[:2]:
+            os.unlink(a.path(d, rel))
+            if targets and rng.chance(1, 2):
+                td, trel = rng.choice([t for t in targets if t[0] != d] or targets)
+                os.symlink(a.path(td, trel), a.path(d, rel)); s.log('empty file %s/%r replaced by a link to %s/%r' % (d, rel, td, trel))
+            else:
+                os.makedirs(os.path.join(a.root, 'outside'), exist_ok=True)
+                os.symlink(os.path.join(a.root, 'outside', 'made-by-fix-%s' % d), a.path(d, rel)); s.log('empty file %s/%r replaced by a dangling link' % (d, rel))
+            stats['empty_to_link'] = stats.get('empty_to_link', 0) + 1
     dec = fx.decode(a)
     zero_nsec = set()
     for f in dec.files:
@@ -223,7 +239,7 @@ def main(tier, seed):
     chk.evaluations = stats['runs']
     chk.distinct = stats['ops']
     chk.extra['explanation'] = 'Lean specification table Props.C12.allowed (with theorems for each sentence of the property) evaluated by the driver on every state-changing call logged by the shim and on every before/after difference of the array tree'
-    chk.rule = ('%d arrays in states healthy / unsynced / damaged / partially lost x 10 commands drawn from status, status -G, diff, list, dup, check (-a, -d, -f), scrub (full, percentage), sync (full, -B), fix (plain, -d, -m, -f), pool, touch, devices incl. runs that end in errors; every logged create/write/rename/unlink/truncate/utimens and every changed path must be in a region the Lean table allows for that command; touch: only sub-second part of zero-nsec files; fix: only files it reports' % n)
+    chk.rule = ('%d arrays in states healthy / unsynced / damaged / partially lost x 10 commands drawn from status, status -G, diff, list, dup, check (-a, -d, -f), scrub (full, percentage), sync (full, -B), fix (plain, -d, -m, -f), pool, touch, devices incl. runs that end in errors; every logged create/write/rename/unlink/truncate/utimens and every changed path must be in a region the Lean table allows for that command; touch: only sub-second part of zero-nsec files; fix: only files it reports; arrays hold a resolvable link to a directory with an empty sub-directory, names that are a link on one disk and a directory on another, recorded empty files replaced by symlinks (to a healthy file or dangling); pool is always among the commands' % n)
     chk.samples = [dict(stats)]
     chk.corr['MONITOR'] = dict(stats)
     chk.finish()
